@@ -2,6 +2,7 @@
 //! and records traces of the real library for TLC to validate (impl -> spec).
 mod codec;
 mod conc;
+mod elgamal;
 mod record;
 mod refeval;
 mod signcrypt;
@@ -33,6 +34,8 @@ fn run_vector(v: &Value, group: &str, conc: &Conc, tables: &Tables) -> signet::O
         ("SignCrypt", "G2") => signcrypt::run::<Bls12381G2Impl, RefG2>(v, conc, tables),
         ("TimeLock", "G1") => timelock::run::<Bls12381G1Impl, RefG1>(v, conc, tables),
         ("TimeLock", "G2") => timelock::run::<Bls12381G2Impl, RefG2>(v, conc, tables),
+        ("ElGamal", "G1") => elgamal::run::<Bls12381G1Impl, RefG1>(v, conc, tables),
+        ("ElGamal", "G2") => elgamal::run::<Bls12381G2Impl, RefG2>(v, conc, tables),
         ("Threshold", "G1") => threshold::run::<Bls12381G1Impl, RefG1>(v, conc, tables),
         ("Threshold", "G2") => threshold::run::<Bls12381G2Impl, RefG2>(v, conc, tables),
         (s, g) => signet::Outcome::fail(json!({}), format!("no interpreter for spec {s} group {g}")),
